@@ -229,8 +229,10 @@ def step (d : DSt) (j : Json) : DSt × Json :=
     match getNat j "node" with
     | some i =>
       let r := destroy d.G i d.S
+      -- Sink.destroy: super().destroy(); _global_sinks.remove(self)   (KeyError when destroyed twice)
+      let err := if r.err.isNone && isSink (d.G i) && !d.live.sinkReg i then some Err.keyError else r.err
       let live := if r.err.isNone && isSink (d.G i) then { d.live with sinkReg := fun q => if q = i then false else d.live.sinkReg q } else d.live
-      (gc { d with S := r.st, live := live }, Json.mkObj [("log", .arr (r.log.map evJson).toArray), ("err", errJson r.err)])
+      (gc { d with S := r.st, live := live }, Json.mkObj [("log", .arr (r.log.map evJson).toArray), ("err", errJson err)])
     | none => (d, badOp "destroy")
   | some "drop" =>
     match getNat j "node" with
